@@ -1,6 +1,7 @@
 import GGen.FormulasC06
 import GModel.Traj
 import GProofs.C06
+import GProofs.C06Fft
 import Mathlib.Tactic.Ring
 /-!
 # C06 — obligations on the slice regenerated from /repo's source (GGen/FormulasC06.lean): `Trajectory.mean_squared_displacement`
@@ -10,7 +11,7 @@ Together with `C06.msdAlgo_eq_def` (the S1 recursion and the autocorrelation sum
 algorithm to the lines that implement it.
 -/
 namespace G.C06Gen
-open G G.Traj
+open G G.Traj G.Fft
 
 theorem msdCombine_eq (a b : ℚ) : Gen.msdCombine a b = a - 2 * b := by
   unfold Gen.msdCombine; ring
@@ -23,5 +24,16 @@ theorem msdCombine_model (r : List V3) (m : Nat) : Gen.msdCombine (s1 r m) (s2 r
 theorem msdCombine_is_definition (r : List V3) (m : Nat) (hm : m < r.length) :
     Gen.msdCombine (s1 r m) (s2 r m) = msdDef r m := by
   rw [msdCombine_model]; exact C06.msdAlgo_eq_def r m hm
+
+/-- the transform length written in the source leaves room for every lag that is kept: no wrapped-around term … -/
+theorem msdFftLength_ok (n k : Nat) (hk : k < n) : n + k ≤ Gen.msdFftLength n := by
+  unfold Gen.msdFftLength; omega
+
+/-- … hence the code — FFT step read as the cyclic autocorrelation of the signal padded to the SOURCE's length, terms combined as
+the source combines them — computes the definition, for every track and every lag -/
+theorem msd_source_is_definition (r : List V3) (m : Nat) (hm : m < r.length) :
+    Gen.msdCombine (s1 r m) (s2Cyclic r (Gen.msdFftLength r.length) m) = msdDef r m := by
+  rw [C06Fft.s2Cyclic_eq_s2 r _ m (msdFftLength_ok r.length m hm)]
+  exact msdCombine_is_definition r m hm
 
 end G.C06Gen
